@@ -52,8 +52,13 @@ parser.add_argument("-p", "--profile", action="store_true", help="Enable profili
 # Add all options from FFCx option system
 for opt_name, (arg_type, opt_val, opt_desc, choices) in FFCX_DEFAULT_OPTIONS.items():
     if isinstance(opt_val, bool):
+        # NOTE: default=None (not False), so that an absent flag does not count as a
+        # command-line value and override ffcx_options.json
         parser.add_argument(
-            f"--{opt_name}", action="store_true", help=f"{opt_desc} (default={opt_val})"
+            f"--{opt_name}",
+            action="store_true",
+            default=None,
+            help=f"{opt_desc} (default={opt_val})",
         )
     else:
         parser.add_argument(
